@@ -1,11 +1,14 @@
-(* Spec/WasmMemSpec.v — the memory.grow rule of the WebAssembly core spec (4.4.7 memory.grow, 4.5.3.9
-   "growing memories"), stated as a function.  Sizes are in pages; [max = None] = no declared maximum
-   (hard limit 65536 pages).  Result: (value pushed, new size).  Failure pushes -1 and leaves the size
-   unchanged.  NO theorem about ppci uses this yet: the memory/globals behaviour of C22 is validated by
-   the differential search stage tools/props/c22_mem.py only. *)
-From Coq Require Import ZArith.
+(* Spec/WasmMemSpec.v — linear memory of the WebAssembly core spec, independent of ppci:
+   memory.grow (4.4.7, 4.5.3.9 "growing memories"), integer loads and stores (4.4.7 t.load / t.loadN_sx /
+   t.store / t.storeN: little-endian bytes, sign/zero extension, wrap to N bits, bounds check on the
+   effective address ea = i + offset without wrap-around), active data segments (4.5.4).
+   A memory is its byte list (length = pages * 65536); iN values are 0 <= v < 2^N as in WasmNumSpec. *)
+From Coq Require Import ZArith List Bool.
+Import ListNotations.
 Open Scope Z_scope.
 
+(* ---- memory.grow.  Sizes in pages; [max = None] = no declared maximum (hard limit 65536 pages).
+   Result: (value pushed, new size).  Failure pushes -1 and leaves the size unchanged. *)
 Definition mem_grow (size : Z) (max : option Z) (n : Z) : Z * Z :=
   let n := n mod 2 ^ 32 in                                  (* the operand is an unsigned i32 *)
   let limit := match max with Some m => m | None => 65536 end in
@@ -16,3 +19,40 @@ Example grow_zero_at_max : mem_grow 2 (Some 2) 0 = (2, 2). Proof. reflexivity. Q
 Example grow_beyond_max : mem_grow 3 (Some 3) 1 = (-1, 3). Proof. reflexivity. Qed.
 Example grow_no_max : mem_grow 1 None 1 = (1, 2). Proof. reflexivity. Qed.
 Example grow_minus_one : mem_grow 1 None (-1) = (-1, 1). Proof. reflexivity. Qed.
+
+(* ---- little-endian byte strings *)
+Fixpoint le_value (l : list Z) : Z := match l with [] => 0 | b :: r => b + 256 * le_value r end.
+Fixpoint le_bytes (n : nat) (v : Z) : list Z :=
+  match n with O => [] | S k => v mod 256 :: le_bytes k (v / 256) end.
+
+Definition mlen (mem : list Z) : Z := Z.of_nat (length mem).
+
+(* ---- loads: [width] bytes at ea = a + off; sx = sign-extend from 8*width to N bits (else zero-extend).
+   a is the i32 address operand (0 <= a < 2^32), off the static offset.  None = trap. *)
+Definition mem_load (mem : list Z) (width : nat) (sx : bool) (N : Z) (a off : Z) : option Z :=
+  let ea := a + off in
+  if ea + Z.of_nat width <=? mlen mem then
+    let v := le_value (firstn width (skipn (Z.to_nat ea) mem)) in
+    let m := 8 * Z.of_nat width in
+    Some (if sx then (if v <? 2 ^ (m - 1) then v else v - 2 ^ m) mod 2 ^ N else v)
+  else None.
+
+(* ---- stores: the low [width] bytes of v, little-endian.  None = trap (memory unchanged). *)
+Definition mem_store (mem : list Z) (width : nat) (a off v : Z) : option (list Z) :=
+  let ea := a + off in
+  if ea + Z.of_nat width <=? mlen mem then
+    Some (firstn (Z.to_nat ea) mem ++ le_bytes width (v mod 2 ^ (8 * Z.of_nat width))
+          ++ skipn (Z.to_nat ea + width) mem)
+  else None.
+
+(* ---- an active data segment copies its bytes to [off]; it must fit (otherwise instantiation fails) *)
+Definition mem_init (mem : list Z) (off : Z) (data : list Z) : option (list Z) :=
+  if (0 <=? off) && (off + mlen data <=? mlen mem) then
+    Some (firstn (Z.to_nat off) mem ++ data ++ skipn (Z.to_nat off + length data) mem)
+  else None.
+
+Example load8_s_ff : mem_load [1; 255; 3; 4] 1 true 32 1 0 = Some 4294967295. Proof. reflexivity. Qed.
+Example load16_u : mem_load [1; 255; 3; 4] 2 false 32 0 1 = Some 1023. Proof. reflexivity. Qed.
+Example load_last : mem_load [1; 2; 3; 4] 4 false 32 0 0 = Some 67305985. Proof. reflexivity. Qed.
+Example load_past : mem_load [1; 2; 3; 4] 4 false 32 1 0 = None. Proof. reflexivity. Qed.
+Example store16_trunc : mem_store [0; 0; 0; 0] 2 1 0 74565 = Some [0; 69; 35; 0]. Proof. reflexivity. Qed.
